@@ -76,7 +76,8 @@ def build(wf: Workflow, shape: dict):
             c.add_item(f"p{p}")
         return c
     if shape["kind"] == "cart":
-        c = CartesianProductCombinator(name="c", workflow=wf, depth=shape["depth"])
+        c = (CartesianProductCombinator(name="c", workflow=wf) if shape.get("nodepth") else
+             CartesianProductCombinator(name="c", workflow=wf, depth=shape["depth"]))
         for p in range(shape["P"]):
             c.add_item(f"p{p}")
         return c
@@ -402,7 +403,13 @@ def orders(rng, n: int, limit: int) -> list[tuple[int, ...]]:
     return out
 
 
+import inspect  # noqa: E402
+
+_CART_DEFAULT_DEPTH = inspect.signature(CartesianProductCombinator.__init__).parameters["depth"].default
+
 CORPUS = [
+    # built WITHOUT a depth argument, as the CWL translator does: the model runs with the default read from the signature
+    ({"kind": "cart", "depth": _CART_DEFAULT_DEPTH, "P": 2, "nodepth": True}, [(0, "0.1.2", 1), (0, "0.1.3", 2), (1, "0.1.5", 3), (1, "0.4.6", 4)]),
     # (shape, stream) — boundary cases that run first
     ({"kind": "dot", "P": 3}, [(0, "0", 100), (1, "0.1", 200), (2, "0.1.0", 300)]),          # the 3-port broadcast example
     ({"kind": "dot", "P": 2}, [(0, "0", 100), (1, "0", 7), (0, "0.0", 5)]),                   # the Lean witness (known finding)
